@@ -37,7 +37,7 @@ func HarnessC01Pipeline() {
 
 	// R1, possibly interrupted
 	s.FaultAt = zz.Choose("fault.at", zz.Bound(14, 18)) - 1
-	s.FaultKind = 1 + zz.Choose("fault.kind", 2)
+	s.FaultKind = 1 + zz.Choose("fault.kind", 3) // error without effect, error after effect, conflict
 	_, err1 := c.Compose(context.Background(), zzReadXR(s), req)
 	if s.Faulted {
 		zz.Cover("fault-hit")
